@@ -253,3 +253,91 @@ pub fn me_bds61(st: u8, emg: u8, id13: u16) -> [u8; 7] {
     set_bits(&mut me, 11, 13, id13 as u64);
     me
 }
+
+/// Target state and status (BDS 6,2) subtype 1:
+/// TC=29(5) ST(2) SILs(1) SRC(1) ALT(11) QNH(9) HS(1) HDG(9) NACp(4) NICb(1) SIL(2)
+/// MS(1) AP(1) VNAV(1) ALTH(1) IMF(1) APP(1) TCAS(1) LNAV(1) -(2)
+#[allow(clippy::too_many_arguments)]
+pub fn me_bds62(st: u8, src: u8, alt: u16, qnh: u16, hs: u8, hdg: u16, nacp: u8, nicb: u8, sil: u8, modes: u8) -> [u8; 7] {
+    let mut me = [0u8; 7];
+    set_bits(&mut me, 0, 5, 29);
+    set_bits(&mut me, 5, 2, st as u64);
+    set_bits(&mut me, 8, 1, src as u64);
+    set_bits(&mut me, 9, 11, alt as u64);
+    set_bits(&mut me, 20, 9, qnh as u64);
+    set_bits(&mut me, 29, 1, hs as u64);
+    set_bits(&mut me, 30, 9, hdg as u64);
+    set_bits(&mut me, 39, 4, nacp as u64);
+    set_bits(&mut me, 43, 1, nicb as u64);
+    set_bits(&mut me, 44, 2, sil as u64);
+    // MS AP VNAV ALTH IMF APP TCAS LNAV
+    set_bits(&mut me, 46, 8, modes as u64);
+    me
+}
+
+/// Operational status (BDS 6,5): TC=31(5) ST(3) CC(16 | 12+4) OM(16) VER(3) NICs(1) NACp(4) GVA/BAQ(2) SIL(2) NICbaro/TRK(1) HRD(1) SILs(1) -(1)
+pub fn me_bds65(st: u8, cc: u16, om: u16, ver: u8, nic_s: u8, nacp: u8, tail: u8) -> [u8; 7] {
+    let mut me = [0u8; 7];
+    set_bits(&mut me, 0, 5, 31);
+    set_bits(&mut me, 5, 3, st as u64);
+    set_bits(&mut me, 8, 16, cc as u64);
+    set_bits(&mut me, 24, 16, om as u64);
+    set_bits(&mut me, 40, 3, ver as u64);
+    set_bits(&mut me, 43, 1, nic_s as u64);
+    set_bits(&mut me, 44, 4, nacp as u64);
+    set_bits(&mut me, 48, 8, tail as u64);
+    me
+}
+
+// ---------------------------------------------------------------------------
+// Comm-B registers (Doc 9871 tables A-2-64, A-2-80, A-2-96)
+
+/// One "status + value" field: `status` bit followed by `width` bits
+fn put_sv(mb: &mut [u8; 7], off: usize, width: usize, f: Option<u32>) {
+    if let Some(v) = f {
+        set_bits(mb, off, 1, 1);
+        set_bits(mb, off + 1, width, v as u64);
+    }
+}
+
+/// BDS 4,0: MCP alt (st+12, 16 ft), FMS alt (st+12), QNH (st+12, 0.1 mb over 800),
+/// 8 reserved, mode status+3 bits, 2 reserved, source status + 2 bits
+pub fn mb_bds40(mcp: Option<u32>, fms: Option<u32>, qnh: Option<u32>, modes: Option<u32>, source: Option<u32>) -> [u8; 7] {
+    let mut mb = [0u8; 7];
+    put_sv(&mut mb, 0, 12, mcp);
+    put_sv(&mut mb, 13, 12, fms);
+    put_sv(&mut mb, 26, 12, qnh);
+    put_sv(&mut mb, 47, 3, modes);
+    put_sv(&mut mb, 53, 2, source);
+    mb
+}
+
+/// BDS 5,0: roll (st, sign+9: 45/256 deg), true track (st, sign+10: 90/512 deg),
+/// ground speed (st, 10: 2 kt), track rate (st, sign+9: 8/256 deg/s), TAS (st, 10: 2 kt).
+/// Signed fields are given as two's complement codes of width 10 / 11 / 10.
+pub fn mb_bds50(roll: Option<u32>, track: Option<u32>, gs: Option<u32>, rate: Option<u32>, tas: Option<u32>) -> [u8; 7] {
+    let mut mb = [0u8; 7];
+    put_sv(&mut mb, 0, 10, roll);
+    put_sv(&mut mb, 11, 11, track);
+    put_sv(&mut mb, 23, 10, gs);
+    put_sv(&mut mb, 34, 10, rate);
+    put_sv(&mut mb, 45, 10, tas);
+    mb
+}
+
+/// BDS 6,0: magnetic heading (st, sign+10: 90/512 deg), IAS (st, 10: 1 kt),
+/// Mach (st, 10: 2.048/512), baro rate (st, sign+9: 32 ft/min), inertial rate (st, sign+9)
+pub fn mb_bds60(hdg: Option<u32>, ias: Option<u32>, mach: Option<u32>, baro: Option<u32>, inertial: Option<u32>) -> [u8; 7] {
+    let mut mb = [0u8; 7];
+    put_sv(&mut mb, 0, 11, hdg);
+    put_sv(&mut mb, 12, 10, ias);
+    put_sv(&mut mb, 23, 10, mach);
+    put_sv(&mut mb, 34, 10, baro);
+    put_sv(&mut mb, 45, 10, inertial);
+    mb
+}
+
+/// Two's complement code of `v` on `width` bits
+pub fn twos(v: i32, width: u32) -> u32 {
+    (v as u32) & ((1u32 << width) - 1)
+}
